@@ -329,6 +329,68 @@ def run_gen(ctx, spec):
         except Exception:
             ctx.count('gen_eval_rejected:' + which)
 
+    directed_apply_theorem(ctx, rng, spec['count'])
+
+
+def directed_apply_theorem(ctx, rng, count):
+    """apply_theorem_for with a PARTIAL instantiation and no premises: a function-typed schematic variable becomes an
+    abstraction that ignores (or uses) its argument, other schematic variables are instantiated or left open.  What is
+    left open must be generalised in the evaluated sequent exactly as in the expansion - also when the variable
+    vanishes from the statement after beta-normalisation.  The eval wrapper runs the expansion check."""
+    from kernel import theory
+    from kernel.term import Inst, Var, Lambda
+    from kernel.type import TVar, STVar, TyInst
+    from logic import basic
+    basic.load_theory('set')
+    macro = theory.global_macros['apply_theorem_for']
+    thms = theory.thy.get_data('theorems')
+    names = []
+    for name in sorted(thms):
+        try:
+            th = theory.get_theorem(name)
+        except Exception:
+            continue
+        svs = th.prop.get_svars()
+        if any(v.T.is_fun() for v in svs) and 2 <= len(svs) <= 5 and th.prop.size() <= 60:
+            names.append(name)
+    ctx.count('apply_theorem_directed_theorems', len(names))
+    for k in range(count):
+        name = rng.choice(names)
+        th = theory.get_theorem(name)
+        svs = th.prop.get_svars()
+        tyinst = TyInst()
+        for tv in th.prop.get_stvars():
+            tyinst[tv.name] = TVar(tv.name)
+        inst = Inst()
+        inst.tyinst = tyinst
+        shape = []
+        for v in svs:
+            T = v.T.subst(tyinst)
+            r = rng.random()
+            if T.is_fun() and r < 0.8:
+                doms, rng_T = T.strip_type()
+                xs = [Var('vfx%d' % i, d) for i, d in enumerate(doms)]
+                if rng.random() < 0.6:
+                    body = Var('vf_q', rng_T)                              # ignores every argument
+                    shape.append('const-fun')
+                else:
+                    body = Var('vf_g', T)(*xs)                              # uses them
+                    shape.append('eta-fun')
+                inst[v.name] = Lambda(*(xs + [body]))
+            elif not T.is_fun() and r < 0.3:
+                inst[v.name] = Var('vf_' + v.name, T)
+                shape.append('var')
+            else:
+                shape.append('open')
+        ctx.count('apply_theorem_directed_calls')
+        try:
+            macro.eval((name, inst), [])
+            ctx.count('apply_theorem_directed_evaluated')
+            if 'const-fun' in shape and 'open' in shape:
+                ctx.count('apply_theorem_directed_const_fun_with_open_variable')
+        except Exception as e:
+            ctx.count('apply_theorem_directed_eval_rejected:' + type(e).__name__)
+
 
 ARITH_MACROS = ['nat_const_ineq', 'nat_const_less', 'nat_const_less_eq', 'nat_norm', 'int_eq_comparison', 'int_eq_macro',
                 'omega_norm_int_ineq', 'real_eq_comparison', 'real_norm', 'fun_upd_eval']
